@@ -955,3 +955,27 @@ multi('C12', 'static-error-memoised', 'mutant', [
 multi('C15', 'static-error-memoised', 'mutant', [
     (RUTIL, "def _compute_static_error(", "@lru_cache(maxsize=None)\ndef _compute_static_error("),
     (RUTIL, "from gearpy.powertrain import Powertrain", "from functools import lru_cache\nfrom gearpy.powertrain import Powertrain")], 'C15.pure')
+
+# ------------------------------------------------------------------------------------------ round-5 rules
+EQ_OLD = """            return fabs(
+                self.value - other.to(self.unit).value
+            ) < COMPARISON_TOLERANCE"""
+benign('C05', 'eq-as-chained-band-on-difference', UB, EQ_OLD, """            difference = self.value - other.to(self.unit).value
+            return -COMPARISON_TOLERANCE < difference < COMPARISON_TOLERANCE""")
+benign('C05', 'eq-as-two-returns', UB, EQ_OLD, """            difference = self.value - other.to(self.unit).value
+            if difference >= COMPARISON_TOLERANCE:
+                return False
+            return difference > -COMPARISON_TOLERANCE""")
+mutant('C05', 'eq-band-closed-on-one-side', UB, EQ_OLD, """            difference = self.value - other.to(self.unit).value
+            return -COMPARISON_TOLERANCE <= difference < COMPARISON_TOLERANCE""", 'C05.cmp')
+mutant('C05', 'eq-tolerance-added-to-operand', UB, EQ_OLD, """            return self.value - COMPARISON_TOLERANCE \\
+                < other.to(self.unit).value \\
+                < self.value + COMPARISON_TOLERANCE""", 'C05.cmp')
+mutant('C16', 'eq-tolerance-added-to-operand', UB, EQ_OLD, """            return self.value - COMPARISON_TOLERANCE \\
+                < other.to(self.unit).value \\
+                < self.value + COMPARISON_TOLERANCE""", 'C16.dep.cmp')
+mutant('C08', 'branch-by-truth-arithmetic', DC, "        if abs(self.pwm) <= pwm_min:\n            if pwm_min == 0:", "        if (self.pwm >= -pwm_min) + (self.pwm > pwm_min) == 1:\n            if pwm_min == 0:", 'C08.boundary-tests')
+mutant('C11', 'continuation-guard-by-identity', SV, "        if self.__powertrain.time:\n            initial_time = self.__powertrain.time[-1]",
+       "        if self.__powertrain.time:\n            if len(self.__powertrain.time) is not len(self.__powertrain.elements[-1].time_variables['angular position']):\n                raise ValueError('not aligned')\n            initial_time = self.__powertrain.time[-1]", 'C11.count')
+mutant('C01', 'reset-shares-one-list', PT, "            for variable in element.time_variables.keys():\n                element.time_variables[variable] = []\n",
+       "            element.time_variables.update(dict.fromkeys(element.time_variables, []))\n", 'C01.recorded.reset')
